@@ -260,8 +260,23 @@ def gen_abstract(rng, opts):
                     e['S'] = S
                 elif d[0] == 'Cp':
                     e['Cp'][d[1]] = cp[d[1]]
+        spare = [f for f in data_files if f not in ent]
+        if ent and spare and opts.get('range_part', True) and \
+                rng.random() < 0.12:
+            # one more part, in another file, that gives nothing but a range
+            # reaching beyond the others (the merged range is the hull,
+            # whichever part arrives first)
+            ent[rng.choice(spare)] = {
+                'H': None, 'S': None, 'Cp': {},
+                'range': (min(full_lo, lo_all) - rng.choice([0.0, 25.0, 50.0]),
+                          max(full_hi, hi_all) + rng.choice([0.0, 100.0,
+                                                             500.0]))}
+            strata.add('range_only_part')
         for f, e in ent.items():
-            if e['Cp']:
+            if e['range'] is not None and not e['Cp'] and e['H'] is None \
+                    and e['S'] is None:
+                pass                      # the range-only part made above
+            elif e['Cp']:
                 lo = min(list(e['Cp']) + [tref])
                 hi = max(list(e['Cp']) + [tref])
                 e['range'] = (rng.choice([lo, full_lo]),
